@@ -4,9 +4,9 @@ from tools import common, worldcheck, recordings, gen_const, synth, gen_types
 LEVEL = 'proof'
 
 
-def sweep(ctx, dialect, maxn, exh):
+def sweep(ctx, dialect, maxn, exh, elem=None):
     rng = ctx.rng
-    ds = synth.sweep_defset(elem=rng.choice([('u', 2), ('u', 1), ('i', 4), ('string',), ('vec', 12)]))
+    ds = synth.sweep_defset(elem=elem or rng.choice([('u', 2), ('u', 1), ('i', 4), ('string',), ('vec', 12)]))
     d = synth.write_defset(ds, rng)
     try:
         pl = synth.make_player(dialect, d); view = synth.LibView(pl)
@@ -64,15 +64,15 @@ def big_payload(ctx, n):
 
 
 def run(ctx):
-    ctx.rule = ('(a) sweep: list sizes 0..40 at depth 1-3, every index, EVERY (i,j,k) slice triple for lists up to 5 (exhaustive), the state after '
+    ctx.rule = ('(a) sweep: list sizes 0..40 at depth 1-3 and lists grown by slice packets to 334 elements (9-bit indices and bounds), every index, EVERY (i,j,k) slice triple for lists up to 5 (exhaustive), the state after '
                 'each single operation compared with plain Python list/dict semantics; (b) generated histories with nested operations over '
                 'generated definitions; non-trivial = each nested operation; distinct by (stream, packet index)')
     ctx.coq_props('Props/C06.v')
     gen_const.instance_obligations(ctx, 'C06', which=('tables',))
     q = ctx.tier == 'quick'
     ok = True
-    for dialect in (('wows', 'wot') if q else ('wows', 'wows126', 'wot')):
-        ok &= sweep(ctx, dialect, 40, 4 if q else 6)
+    for k, dialect in enumerate(('wows', 'wot') if q else ('wows', 'wows126', 'wot')):
+        ok &= sweep(ctx, dialect, 40, 4 if q else 6, elem=(('u', 1), ('u', 2))[k % 2] if k < 2 else None)     # one-/two-byte elements: the grown-list phase runs
     ctx.obligation('correspondence: library = extracted model on the nested sweeps', ok)
     for n in (122, 123, 124, 125, 130, 200, 249, 250): big_payload(ctx, n)     # payload lengths 126..254 around the signed-byte boundary
     worldcheck.run_histories(ctx, 'C06', n_defsets=8 if q else 60, hist_per_set=3, sizes=[80, 250] if q else [80, 250, 700],
